@@ -397,6 +397,20 @@ def check_case(case: dict[str, Any], col: common.Collector) -> None:
             continue
         probs: list[tuple[str, str, dict[str, Any]]] = []
         if var["status"] == "fail":
+            from vf.checks import c01
+            lim = c01.loopy_limitation(var["stage"], var.get("exc"), var.get("detail") or "",
+                                       var.get("bp"))
+            if lim is None and var["stage"] in ("gcc", "loopy-codegen") and var.get("bp"):
+                try:
+                    tb = c01.trusted_base_signatures(var["bp"].program)
+                except Exception:  # noqa: BLE001
+                    tb = set()
+                if tb:
+                    lim = "+".join(sorted(tb))
+            if lim is not None:
+                # the tag assignment only exposes a construct loopy mistranslates
+                col.histo("trusted_base_disagreements", f"{var['stage']}:{lim}")
+                continue
             exc = var.get("exc")
             site = common.exc_site(exc) if exc is not None else "gcc"
             probs.append((f"C07:codegen:{var['stage']}:{type(exc).__name__ if exc else 'gcc'}"
